@@ -184,6 +184,11 @@ def _crash(op, t1, t2, ops, a, k, args):
           okz = e is None and o.done and not o.HasField('error')
           okz = okz and len(vs.SuggestTrialsResponse.FromString(o.response.value).trials) == 1
           okz = okz and svc.lifecycle_ok(got['s'], _full(sv2)['s'])
+          # ... including a worker that already has (finished) operations of its own
+          if before['ops']['v'] and all(done for _, done in before['ops']['v']):
+            o, e = svc.call(sv2.SuggestTrials, vs.SuggestTrialsRequest(parent=S, suggestion_count=1, client_id='v'))
+            okz = okz and e is None and o.done and not o.HasField('error')
+            okz = okz and len(vs.SuggestTrialsResponse.FromString(o.response.value).trials) == 1
           sv2.datastore._connection.close()
           reach('known:' + method)
           return finish(okz, args, obs=[tag, 'abandoned op (known finding); other worker continues'])
@@ -220,9 +225,10 @@ def crash_atomic(op: int, t1: int, t2: bool, a: bool, k: int) -> bool:
   if sl is not None and op % 4 != int(sl):
     return True
   t1, t2, a, k = conc(t1, 0, 4), cbool(t2), cbool(a), conc(k, 0, 14)
-  if op in (1, 2, 3, 4, 7) and a:
+  if op in (1, 2, 3, 4) and a:
     return True
-  return _crash(op, t1, 1 if t2 else 0, 0, a, k, (op, t1, t2, a, k))
+  # (for DeleteStudy `a` decides whether the study has suggestion operations that must go with it)
+  return _crash(op, t1, 1 if t2 else 0, 1 if (op == 7 and a) else 0, a, k, (op, t1, t2, a, k))
 
 
 def crash_multi(op: int, t1: int, t2: bool, ops: bool, a: bool, k: int) -> bool:
